@@ -70,6 +70,14 @@ class DynamicFields:
     except AttributeError:
       super().__setattr__(name, value)
 
+  def _is_attribute_name(self, name):
+    """Is name taken by an attribute of the line (a method, a property,
+    an instance variable), other than the accessor of a field?"""
+    attr = getattr(type(self), name, None)
+    if attr is None:
+      attr = self.__dict__.get(name, None)
+    return attr is not None and not isinstance(attr, DynamicField)
+
   def _define_field_methods(self, fieldname):
     """Define field methods for a single field"""
     def getter(self):
